@@ -502,6 +502,80 @@ var rtNeutralisers = []neutraliser{
 			return oracle.MapLeaves(v, unmap4in6)
 		})
 	}},
+	{"C02/zson/typedef-bound-before-inner-type", func(c RTCase) (RTCase, bool) {
+		// rename named types that occur inside the definition of a named
+		// type with the same name (bar=[bar=uint8])
+		inner := map[*zed.TypeNamed]bool{}
+		mark := func(t zed.Type) {
+			if n, ok := t.(*zed.TypeNamed); ok {
+				walkTypes(n.Type, func(m zed.Type) {
+					if m, ok := m.(*zed.TypeNamed); ok && m != n && m.Name == n.Name {
+						inner[m] = true
+					}
+				})
+			}
+		}
+		for _, v := range c.Seq.Vals {
+			walkValueTypes(c.Seq.Zctx, v, mark)
+		}
+		if len(inner) == 0 {
+			return c, false
+		}
+		return rewriteSeq(c, func() *rewriter {
+			return &rewriter{nameOrig: func(orig *zed.TypeNamed, _ zed.Type) string {
+				if inner[orig] {
+					return orig.Name + "_in"
+				}
+				return orig.Name
+			}}
+		})
+	}},
+	{"C02/zson/typedef-in-type-value-or-error-type-not-tracked", func(c RTCase) (RTCase, bool) {
+		// give the named types inside type values names of their own
+		r := &rewriter{zctx: c.Seq.Zctx, name: func(name string, _ zed.Type) string { return "tv_" + name }}
+		return mapSeq(c, func(v zed.Value) zed.Value {
+			if v.IsNull() {
+				return v
+			}
+			return oracle.MapLeaves(v, func(typ zed.Type, body zcode.Bytes) zcode.Bytes {
+				if typ != zed.TypeType {
+					return body
+				}
+				t, err := c.Seq.Zctx.LookupByValue(body)
+				if err != nil {
+					panic(fmt.Sprintf("harness: cannot decode type value: %v", err))
+				}
+				return zed.EncodeTypeValue(r.typ(t))
+			})
+		})
+	}},
+	{"C02/zson/typedef-in-type-value-or-error-type-not-tracked", func(c RTCase) (RTCase, bool) {
+		// give the named types inside error types names of their own
+		under := map[*zed.TypeNamed]bool{}
+		mark := func(t zed.Type) {
+			if e, ok := t.(*zed.TypeError); ok {
+				walkTypes(e.Type, func(m zed.Type) {
+					if m, ok := m.(*zed.TypeNamed); ok {
+						under[m] = true
+					}
+				})
+			}
+		}
+		for _, v := range c.Seq.Vals {
+			walkValueTypes(c.Seq.Zctx, v, mark)
+		}
+		if len(under) == 0 {
+			return c, false
+		}
+		return rewriteSeq(c, func() *rewriter {
+			return &rewriter{nameOrig: func(orig *zed.TypeNamed, _ zed.Type) string {
+				if under[orig] {
+					return "err_" + orig.Name
+				}
+				return orig.Name
+			}}
+		})
+	}},
 	{"C02/zson/rebound-name-treated-as-known", uniqueNames},
 	{"C02/zson/enum-symbol-unquoted", func(c RTCase) (RTCase, bool) {
 		return rewriteSeq(c, func() *rewriter {
@@ -540,8 +614,10 @@ var rtNeutralisers = []neutraliser{
 // itself (the message pins the cause down); the failing value is then dropped
 // from the sequence and the rest of the case is still checked.
 type symptom struct {
-	sig   string
-	match func(f *rtFail) bool
+	sig string
+	// match reports whether the failure shows the class and which value of
+	// the sequence to drop (-1: the failing one).
+	match func(f *rtFail) (drop int, ok bool)
 }
 
 var conflictRE = regexp.MustCompile(`^decorator conflict enclosing context ("(?:[^"\\]|\\.)*") and decorator cast ("(?:[^"\\]|\\.)*")$`)
@@ -588,20 +664,24 @@ func notInUnionTypes(errText string) (x, u string, ok bool) {
 	}
 }
 
+func failing(match func(f *rtFail) bool) func(f *rtFail) (int, bool) {
+	return func(f *rtFail) (int, bool) { return -1, match(f) }
+}
+
 var rtSymptoms = []symptom{
 	// io.ErrShortBuffer can only come from Lexer.fill's io.ReadAtLeast call.
-	{"C02/zson/lexer-lookahead-over-32KiB-short-buffer", func(f *rtFail) bool {
+	{"C02/zson/lexer-lookahead-over-32KiB-short-buffer", failing(func(f *rtFail) bool {
 		return f.kind == "parse-error" && f.err == io.ErrShortBuffer.Error()
-	}},
+	})},
 	// "(=name)" after another decorator is outside the grammar; the parser builds
 	// a DefValue without a value for it and the analyzer trips over the nil.
-	{"C02/zson/named-partial-union-container-double-decorator", func(f *rtFail) bool {
+	{"C02/zson/named-partial-union-container-double-decorator", failing(func(f *rtFail) bool {
 		return f.kind == "parse-error" && strings.Contains(f.err, "unknown ast type in Analyzer.convertAny(): <nil>")
-	}},
+	})},
 	// Same formatter behaviour for a later occurrence of the named type:
 	// `[3,4]([(int8,int64)])(foo)`: two decorators on a non-union value; the
 	// analyzer reports a conflict between foo and its own underlying type.
-	{"C02/zson/named-partial-union-container-double-decorator", func(f *rtFail) bool {
+	{"C02/zson/named-partial-union-container-double-decorator", failing(func(f *rtFail) bool {
 		m := conflictRE.FindStringSubmatch(f.err)
 		if f.kind != "parse-error" || m == nil {
 			return false
@@ -619,11 +699,11 @@ var rtSymptoms = []symptom{
 		}
 		_, named := nt.(*zed.TypeNamed)
 		return named && zed.TypeUnder(nt) == ct && isUnionContainer(ct)
-	}},
+	})},
 	// `v (=name)` where the enclosing decorator already types the position as
 	// name=T: the analyzer wraps the name a second time (name=name=T) and a later
 	// `(name)` reference then conflicts with the enclosing type.
-	{"C02/zson/typedef-value-under-enclosing-cast-mishandled", func(f *rtFail) bool {
+	{"C02/zson/typedef-value-under-enclosing-cast-mishandled", failing(func(f *rtFail) bool {
 		m := conflictRE.FindStringSubmatch(f.err)
 		if f.kind != "parse-error" || m == nil {
 			return false
@@ -642,22 +722,34 @@ var rtSymptoms = []symptom{
 		n, ok1 := nt.(*zed.TypeNamed)
 		c, ok2 := ct.(*zed.TypeNamed)
 		return ok1 && ok2 && c.Type == n && c.Name == n.Name && strings.Contains(f.text, "(="+zson.QuotedTypeName(n.Name)+")")
-	}},
-	// The analyzer resolves a decorator before the value it decorates, so a
-	// name defined inside the value (earlier in the text) is not visible yet.
-	{"C02/zson/decorator-refs-typedef-inside-value", func(f *rtFail) bool {
-		return f.kind == "parse-error" && strings.Contains(f.err, "no such type name:") && refsFollowDefs(f.text)
+	})},
+	// The analyzer converts a decorator before the value it decorates, so
+	// typedefs take effect in another order than they have in the text: a name
+	// defined inside the value is not yet visible in its decorator (`no such
+	// type name`), or a name defined in both ends up bound to the wrong one.
+	{"C02/zson/analyzer-decorator-before-value-typedef-order", func(f *rtFail) (int, bool) {
+		if f.kind == "pointer-differs" || f.kind == "count-differs" {
+			return 0, false
+		}
+		j, ok := orderSensitive(f.text)
+		if !ok || j > f.idx {
+			return 0, false
+		}
+		if f.mode == "value" {
+			return -1, true
+		}
+		return j, true
 	}},
 	// Analyzer.convertUnion was handed a value that already has the union type
 	// itself: only the double conversion in Analyzer.convertValue does that.
-	{"C02/zson/union-decorator-under-enclosing-cast-rejected", func(f *rtFail) bool {
+	{"C02/zson/union-decorator-under-enclosing-cast-rejected", failing(func(f *rtFail) bool {
 		x, u, ok := notInUnionTypes(f.err)
 		return f.kind == "parse-error" && ok && x == u
-	}},
+	})},
 	// `v (=name)` where an enclosing decorator says the position is a union
 	// with member name=T: the analyzer checks v's type T against the union
 	// before it applies the (=name) typedef.
-	{"C02/zson/typedef-value-under-enclosing-cast-mishandled", func(f *rtFail) bool {
+	{"C02/zson/typedef-value-under-enclosing-cast-mishandled", failing(func(f *rtFail) bool {
 		x, u, ok := notInUnionTypes(f.err)
 		if f.kind != "parse-error" || !ok {
 			return false
@@ -678,7 +770,7 @@ var rtSymptoms = []symptom{
 			}
 		}
 		return false
-	}},
+	})},
 }
 
 func dropValue(c RTCase, idx int) RTCase {
@@ -707,16 +799,19 @@ func decide(c RTCase, ladder []neutraliser, symptoms []symptom, o *vt.Outcome) {
 loop:
 	for fail != nil {
 		for _, s := range symptoms {
-			if s.match(fail) {
+			if drop, ok := s.match(fail); ok {
 				if !vt.IsKnown(s.sig) {
 					failf(s.sig)
 					return
 				}
 				o.Known = append(o.Known, s.sig)
-				if fail.idx >= len(cur.Seq.Vals) {
-					panic("harness: failing index out of range")
+				if drop < 0 {
+					drop = fail.idx
 				}
-				cur = dropValue(cur, fail.idx)
+				if drop >= len(cur.Seq.Vals) {
+					panic("harness: index of value to drop out of range")
+				}
+				cur = dropValue(cur, drop)
 				fail = cur.check()
 				continue loop
 			}
@@ -844,6 +939,22 @@ func genRT(to gen.TypeOpts, vo gen.ValOpts) func(t *rapid.T) RTCase {
 			maxLen, depth = 12, 4
 		}
 		c.Seq = drawSeq(t, to, vo, maxLen, 4, depth)
+		if vo.NonNFC {
+			// gen's pools are NFC; decompose a third of the string leaves and
+			// add a combining sequence so that non-NFC strings really occur
+			for i, v := range c.Seq.Vals {
+				if v.IsNull() {
+					continue
+				}
+				c.Seq.Vals[i] = oracle.MapLeaves(v, func(typ zed.Type, body zcode.Bytes) zcode.Bytes {
+					if typ.ID() == zed.IDString && rapid.IntRange(0, 2).Draw(t, "denormalise?") == 0 {
+						// (fresh slice: norm may hand back its argument)
+						return append(append(zcode.Bytes{}, norm.NFD.Bytes(body)...), "e\u0301"...)
+					}
+					return body
+				})
+			}
+		}
 		return c
 	}
 }
@@ -946,6 +1057,12 @@ func labelRT(c RTCase, o *vt.Outcome) {
 	if len(c.Seq.Vals) >= 2 {
 		o.Label("multi-value")
 	}
+	for _, v := range c.Seq.Vals {
+		if !v.IsNull() && oracle.HasLeaf(v, func(typ zed.Type, body zcode.Bytes) bool { return typ.ID() == zed.IDString && !norm.NFC.IsNormal(body) }) {
+			o.Label("non-nfc-string")
+			break
+		}
+	}
 	for k := range set {
 		o.Label(k)
 	}
@@ -974,6 +1091,15 @@ var propRT = &vt.Prop[RTCase]{
 	Run:  runRT(rtNeutralisers, rtSymptoms),
 }
 
+// weighted returns gen.Primitives with typ repeated n more times.
+func weighted(typ zed.Type, n int) []zed.Type {
+	out := append([]zed.Type(nil), gen.Primitives...)
+	for i := 0; i < n; i++ {
+		out = append(out, typ)
+	}
+	return out
+}
+
 // Opt-in corner: non-NFC strings.  The ZSON parser normalises string values to
 // NFC (zson.BuildPrimitive), as the JSON and Zeek readers do, so a non-NFC
 // string cannot round-trip; kept out of the main stream and reported here.
@@ -987,7 +1113,7 @@ func nfcStrings(typ zed.Type, body zcode.Bytes) zcode.Bytes {
 var propNonNFC = &vt.Prop[RTCase]{
 	Name: "TestZSONNonNFC",
 	Rule: "opt-in corner of TestZSONRoundTrip: the value generator may produce strings that are not in Unicode NFC (gen.ValOpts.NonNFC); same oracle",
-	Gen:  genRT(gen.TypeOpts{}, gen.ValOpts{NonNFC: true}),
+	Gen:  genRT(gen.TypeOpts{Prims: weighted(zed.TypeString, 12)}, gen.ValOpts{NonNFC: true}),
 	Run: runRT(append([]neutraliser{{"C02/zson/string-nfc-normalised-on-parse", func(c RTCase) (RTCase, bool) {
 		return mapSeq(c, func(v zed.Value) zed.Value {
 			if v.IsNull() {
@@ -1017,7 +1143,7 @@ func nullMemberToNullUnion(v zed.Value) zed.Value {
 var propNullInUnion = &vt.Prop[RTCase]{
 	Name: "TestZSONNullInUnion",
 	Rule: "opt-in corner of TestZSONRoundTrip: unions may contain the null type as a member (gen.TypeOpts.NullInUnion); same oracle",
-	Gen:  genRT(gen.TypeOpts{NullInUnion: true}, gen.ValOpts{}),
+	Gen:  genRT(gen.TypeOpts{NullInUnion: true, Prims: weighted(zed.TypeNull, 8)}, gen.ValOpts{}),
 	Run: runRT(append([]neutraliser{{"C02/zson/null-union-member-ambiguous", func(c RTCase) (RTCase, bool) { return mapSeq(c, nullMemberToNullUnion) }}},
 		rtNeutralisers...), rtSymptoms),
 }
